@@ -17,6 +17,7 @@ THEOREMS = [
     "RedunModel.C34.parse_dumps",
     "RedunModel.C34.parse_total_nonbracket",
     "RedunModel.C34.parse_isStr",
+    "RedunModel.C34.parse_string_identity",
     "RedunModel.C34.key_value_roundtrip",
     "RedunModel.C34.formatOld_refuted_raises",
     "RedunModel.C34.formatOld_refuted_quoted",
@@ -39,7 +40,8 @@ ASSUMPTIONS = [
     "key=value round trip: keys non-empty and without '='; format_tag_key_value's trimming to max_length is display only and not part of the claim",
 ]
 RULE = ("values from one PRNG: scalars (None, bools, ints incl. big/negative, finite floats incl. -0.0, 1e22, 5e-324), strings biased to "
-        "leading [ { \", numeric look-alikes ('1_0', Arabic-Indic digits, ' 1', '1e5', 'nan', '-0', '0x10', 'inf'), literals, spaces/commas/"
+        "leading [ { \", 'equivalent but different' unicode (NFD vs NFC, ANGSTROM/OHM/KELVIN signs, Hangul jamo, compatibility and "
+        "full-width forms, zero-width joiners, astral characters, NBSP and other unusual blanks, non-ASCII digits), numeric look-alikes ('1_0', Arabic-Indic digits, ' 1', '1e5', 'nan', '-0', '0x10', 'inf'), literals, spaces/commas/"
         "newlines, random strings over a hostile alphabet, nested lists/dicts; for each value: format_tag_value on the real code vs model, "
         "parse_tag_value of the displayed text vs model, oracle parse(format(v)) == v, and key=value; plus a stream of raw command-line texts "
         "(valid and invalid JSON, numbers, literals) for parse_tag_value / parse_tag_key_value vs model. distinct = distinct canonical values "
@@ -78,7 +80,29 @@ STRINGS = [
 ]
 
 
+# "equivalent but different" unicode: a string must come back code point by code point, never a normalised / folded / stripped form
+UNICODE = [
+    "cafe\u0301", "caf\u00e9", "e\u0301", "\u0301", "a\u0308\u0323", "a\u0323\u0308", "\u212b", "\u00c5", "A\u030a", "\u2126", "\u03a9", "\u212a", "K",
+    "\u1100\u1161", "\uac00", "\u1100\u1161\u11a8", "\u0340", "\uf900", "\u8c48", "\ufb01", "fi", "\u00b5", "\u03bc", "\u2160", "\u00bd", "\u00b2", "x\u00b2",
+    "\uff11\uff12", "\uff21", "\uff0c", "a\uff0cb", "\u3000", "a\u3000b", "\u00a0", "\u00a0a", "a\u00a0", "a\u00a0b", "\u2003x", "x\u2028", "\u2029", "\u0085a", "\u1680",
+    "\u200d", "a\u200db", "\u200b", "a\u200c", "\ufeff", "\ufeffabc", "\u2060", "\u00ad", "so\u00adft", "\u202e", "\u200e1",
+    "\U0001f600", "\U0001f468\u200d\U0001f469\u200d\U0001f467", "\U00010400", "\U0001d7d9", "\U0001d7ce\U0001d7cf", "\U000e0041", "\U0001f1e6\U0001f1e7",
+    "\u0130", "\u0131", "\u00df", "\u1e9e", "\u01c5", "\u03c2", "\u0661\u0301", "1\u0301", "tru\u0065\u0301", "nul\u006c\u0327", "\u2212" "1", "\u0660", "\u06f1\u06f2",
+    "\u0967\u0968", "\u2460", "\u216b", "\u3007", "\u5341", "\u2153", "\u0bf0", "\u1369", "-\uff11", "\uff0b1", "\uff11\uff0e\uff15", "1\u066b5", "\u0661\u066b\u0665",
+    "\u00e9\u0301", "\u1e0b\u0323", "\u0071\u0307\u0323", "\u0d4a", "\u0d46\u0d3e", "\u09cb", "\u09c7\u09be", "\u0958", "\u0915\u093c", "\u2adc", "\u1f71", "\u03ac",
+]
+STRINGS = STRINGS + UNICODE
+UALPHA = "\u0301\u0308\u0323\u030a\u212b\u2126\u00a0\u200d\u200b\uff11\u3000\u1100\u1161\u00e9e\U0001f600\ufb01\u00ad"
+
+
 def gen_string(rng):
+    r = rng.random()
+    if r < 0.12:
+        return rng.choice(UNICODE)
+    if r < 0.2:      # unicode material inside / around ordinary and number-like text
+        s = rng.choice(STRINGS)
+        i = rng.randrange(len(s) + 1)
+        return s[:i] + "".join(rng.choice(UALPHA) for _ in range(rng.choice([1, 1, 2, 3]))) + s[i:]
     r = rng.random()
     if r < 0.45:
         return rng.choice(STRINGS)
@@ -220,6 +244,16 @@ def check_laws(ctx, v):
         ctx.mismatch("law LexLaws.%s does not hold of the real int/float/json (trusted base broken)" % bad, case=repr(v)[:200], model="law", impl=d[:200])
 
 
+def check_string_identity(ctx, t, p_impl):
+    """parse_string_identity on the real parse_tag_value: a text that is not empty, does not start with [ { ", and is rejected by
+    int(), float() and the literal table is returned unchanged, code point by code point (no normalisation, folding or stripping)."""
+    if t and t[:1] not in ("[", "{", '"') and or_int(t) == "E" and or_float(t) == "E" and t not in ("true", "false", "null"):
+        ctx.count("parse_string_identity", "checked")
+        if p_impl != "ok " + sx(t):
+            ctx.violation("C34-parse-string-branch-not-identity", "parse_tag_value does not return a plain string text unchanged "
+                          "(code point by code point)", case={"value": t, "text": t}, expected="ok " + sx(t), actual=p_impl)
+
+
 # ------------------------------------------------------------------ run
 def run(ctx, only=None):
     from redun.tags import ANY_VALUE, format_tag_value, parse_tag_key_value, parse_tag_value
@@ -272,6 +306,7 @@ def run(ctx, only=None):
             ctx.violation("C34-format-not-text", "format_tag_value returned a non-text", case={"value": v}, expected="str", actual=repr(text)[:100])
             continue
         p_impl, err = impl_parse(text)
+        check_string_identity(ctx, text, p_impl)
         o = oracles(text)
         if o is not None:
             reqs.append("parse %s %s" % (sx(text), o))
@@ -312,6 +347,7 @@ def run(ctx, only=None):
             if o is None:
                 continue
             p_impl, err = impl_parse(t)
+            check_string_identity(ctx, t, p_impl)
             reqs.append("parse %s %s" % (sx(t), o))
             plan.append(("parse", t, p_impl))
             ctx.case(key=("t", t) if nontrivial(t) else None, stream="raw-text", parse="error" if p_impl.startswith("!") else p_impl[3:4])
